@@ -46,6 +46,21 @@ case "$ID" in
     [ $rc1 -eq 1 -o $rc2 -eq 1 ] && exit 1
     exit 0
     ;;
+  C15)
+    build checked
+    if [ "$TIER" = "thorough" ]; then
+      # validate the reference TZif reader (R7) against CPython's zoneinfo on the identical query list;
+      # a disagreement is a machinery defect (exit 2), never a verdict
+      D=$(mktemp /tmp/r7dump.XXXXXX)
+      mc/target/checked/tmc r7dump "$D" || exit 2
+      X=$(python3 py/tzif_crosscheck.py "$D" | tail -1); rc=$?
+      rm -f "$D"
+      echo "R7 cross-check: $X" >&2
+      case "$X" in *"disagreements=0") ;; *) echo "MACHINERY: reference TZif reader disagrees with CPython zoneinfo" >&2; exit 2;; esac
+      export TMC_R7_CROSSCHECK="$X"
+    fi
+    exec mc/target/checked/tmc check "$ID" --tier "$TIER"
+    ;;
   *)
     build checked
     exec mc/target/checked/tmc check "$ID" --tier "$TIER"
